@@ -15,7 +15,7 @@ NOTES = {
  'C05': 'Oracle (2) is differential: the observation of every call in every reachable reader state equals the observation of the same call on a freshly opened object ("as if the failed one had not been made"). Either recorded member length (VBLK length or index size) is accepted for a stream (weaker reading).',
  'C06': 'Acceptance is required for byte strings some Map::Write can emit (flag 0/1, regenerated word) and their trailing-byte variants; for other un-normalised variants a rejection is tolerated and counted. Re-read after SetVersionTag(<0x1010) must fail (the suite\'s AllowInvalidVersionTag shows writing a low tag is intended).',
  'C07': 'Prefixes are presented through one buffer whose tail is ASan-poisoned (O(1) per prefix); the extent the reader consumes is the reference encoder\'s length without trailing bytes.',
- 'C08': 'Library Color fields hold the BMP file byte order; palettes are compared as raw 4-byte entries. Weaker reading: a partial palette may have grown to full length after a round trip if the entries that were read are unchanged.',
+ 'C08': 'Library Color fields hold the BMP file byte order; palettes are compared as raw 4-byte entries. Weaker reading: a partial palette may have grown to full length after a round trip if the entries that were read are unchanged. After seeded change S08r (an in-place flip whose second and later swaps address the wrong bytes) was reported only by the thorough tier, the quick tier enumerates every height -8..8 instead of -3..3: a flip of up to three rows has at most one swap.',
  'C09': 'The picture is compared as a viewer sees it (rows top first + colours), i.e. after normalising the stored orientation, since the standard-bitmap path keeps it.',
  'C10': 'Deep equality and "writing never alters the object" use a dump of every field incl. frame flag bytes and the unknown total.',
  'C11': 'Follow-up exploration: InvertScanLines and SwapRedAndBlue are the only mutating operations, so the reachable set (<= 4 states) is explored to a fixpoint with all eight operations in every state.',
@@ -92,7 +92,7 @@ def main():
         stats['detected'] += 1 if (c.get('detected') or any(det.get('checks', {}).get(o, {}).get('detected') for o in (m.get('also_run') or []))) else 0
         stats['initially_missed'] += 1 if m.get('initially_missed') else 0
         stats['anticipated'] += 1 if (m.get('note') or '').find('before this change was evaluated') >= 0 else 0
-    out.append('\nTotals: %d seeded changes kept over eight rounds (round 1: one per property; round 2: two; rounds 3 to 7: up to three, with prompts steering towards degenerate shapes / symmetric reader-writer mistakes / state left for the next call, then type-width-layout changes / shared helpers / call-order interactions, then secondary entry points / error paths and clean-up / hidden shared state, then commits a maintainer would make for another reason: performance fast paths and caches / modernisation and integer-type clean-ups / well-meant robustness and tolerance changes, then - adversarially - breakage that ordinary testing practice would miss: specific data values, scale, the environment, long or specific histories, rarely observed outputs; and a last, short round 8 of one change for each of the twenty properties, steered towards two cooperating sites, an object used again after a refused call, wrap-around arguments, several items in one call and what a failure in the middle leaves behind - by then the sub-agents largely re-invented changes already kept: the C04, C06, C10, C12 and C18 proposals of that round were the same edit at the same site as S04g/S04k, S06a/S06d/S06p, S20e, S12a/S12b/S12l and S18c/S18h/S18m and were not kept a second time); duplicates of earlier changes were not kept. %d are reported by the quick check of the property they break on the current tree (a few that need gigabytes of memory by the thorough check, said in their rows). %d of them were missed when first evaluated and led to the strengthening named in their row; for %d more the check was extended from the description of the change before it was evaluated (said in the row). Every cured miss was re-run; the rows show the final run.\n\n' % (stats['total'], stats['detected'], stats['initially_missed'], stats['anticipated']))
+    out.append('\nTotals: %d seeded changes kept over eight rounds (round 1: one per property; round 2: two; rounds 3 to 7: up to three, with prompts steering towards degenerate shapes / symmetric reader-writer mistakes / state left for the next call, then type-width-layout changes / shared helpers / call-order interactions, then secondary entry points / error paths and clean-up / hidden shared state, then commits a maintainer would make for another reason: performance fast paths and caches / modernisation and integer-type clean-ups / well-meant robustness and tolerance changes, then - adversarially - breakage that ordinary testing practice would miss: specific data values, scale, the environment, long or specific histories, rarely observed outputs; and a last, short round 8 of one change for each of the twenty properties, steered towards two cooperating sites, an object used again after a refused call, wrap-around arguments, several items in one call and what a failure in the middle leaves behind - by then the sub-agents largely re-invented changes already kept: the C03, C04, C06, C10, C12 and C18 proposals of that round were the same edit at the same site as S03p, S04g/S04k, S06a/S06d/S06p, S20e, S12a/S12b/S12l and S18c/S18h/S18m and were not kept a second time; of the fourteen kept, thirteen were reported at first evaluation and one, S08r, led to the quick tier of C08 enumerating every height -8..8); duplicates of earlier changes were not kept. %d are reported by the quick check of the property they break on the current tree (a few that need gigabytes of memory by the thorough check, said in their rows). %d of them were missed when first evaluated and led to the strengthening named in their row; for %d more the check was extended from the description of the change before it was evaluated (said in the row). Every cured miss was re-run; the rows show the final run.\n\n' % (stats['total'], stats['detected'], stats['initially_missed'], stats['anticipated']))
     rp = os.path.join(VERIF, 'mutants', 'results.json')
     if os.path.exists(rp):
         res = json.load(open(rp))
